@@ -603,15 +603,16 @@ def QSoundI (t : Timeouts) (now : Nat) (ct : AMap Key Entry) (kq : Key × QVal) 
     ∃ e0, ct.get kq.1 = some e0 ∧ e0.lastSeen = kq.2.ts ∧ Judged t now ct kq.1 e0
   else
     ∃ r, ct.get kq.2.other = some r ∧ r.lastSeen = kq.2.revTs ∧
-      (expired t now kq.1.proto r = true ∨ expired t now kq.2.other.proto r = true)
+      ((r.typ ≠ .fwd ∧ expired t now kq.2.other.proto r = true) ∨
+       (∃ f, ct.get kq.1 = some f ∧ f.typ = .fwd ∧ f.revKey = kq.2.other ∧ expired t now kq.1.proto r = true))
 
 def PSoundI (t : Timeouts) (now : Nat) (hist : List (AMap Key Entry)) (done : List Key) (kp : Key × QVal) : Prop :=
   if kp.2.other = dummyKey then
     kp.1 ∈ done ∧ ∃ ct ∈ hist, ∃ e0, ct.get kp.1 = some e0 ∧ e0.typ = .rev ∧ e0.lastSeen = kp.2.ts ∧
       expired t now kp.1.proto e0 = true
   else
-    kp.1 ≠ dummyKey ∧ ∃ ct ∈ hist, ∃ r, ct.get kp.1 = some r ∧ r.lastSeen = kp.2.revTs ∧
-      expired t now kp.2.other.proto r = true
+    kp.1 ≠ dummyKey ∧ ∃ ct ∈ hist, ∃ f r, ct.get kp.2.other = some f ∧ f.typ = .fwd ∧ f.revKey = kp.1 ∧
+      ct.get kp.1 = some r ∧ r.lastSeen = kp.2.revTs ∧ expired t now kp.2.other.proto r = true
 
 structure ScanInvI (t : Timeouts) (now : Nat) (hist : List (AMap Key Entry)) (done : List Key) (sc : ScanSt) : Prop where
   q : ∀ kq ∈ sc.queue, ∃ ct ∈ hist, QSoundI t now ct kq
@@ -688,7 +689,7 @@ theorem scanEntry_invI {t : Timeouts} {now : Nat} {hist : List (AMap Key Entry)}
         · refine ⟨queueI_set ct inv.q ?_, fun kp hm => mono kp (AMap.mem_del hm).1⟩
           unfold QSoundI
           rw [if_neg hkd]
-          exact ⟨e, hk, by simp [check, htyp], Or.inr hexp⟩
+          exact ⟨e, hk, by simp [check, htyp], Or.inl ⟨by simp [htyp], hexp⟩⟩
     | fwd =>
       rw [scanEntry_nat hdel' (by simp [htyp])]
       simp only [handleNAT, htyp]
@@ -728,14 +729,14 @@ theorem scanEntry_invI {t : Timeouts} {now : Nat} {hist : List (AMap Key Entry)}
           intro kp hm
           rcases AMap.mem_set hm with h | h
           · rw [h]; unfold PSoundI; rw [if_neg hkd]
-            exact ⟨hrk, ct, List.mem_cons_self .., r, hr, hl.symm, hx⟩
+            exact ⟨hrk, ct, List.mem_cons_self .., e, r, hk, htyp, rfl, hr, hl.symm, hx⟩
           · exact mono kp h.1
         | some pv =>
           simp only []
           refine ⟨queueI_set ct inv.q ?_, fun kp hm => mono kp (AMap.mem_del hm).1⟩
           unfold QSoundI
           rw [if_neg hrk]
-          exact ⟨r, hr, hl.symm, Or.inl hx⟩
+          exact ⟨r, hr, hl.symm, Or.inr ⟨e, hk, htyp, rfl, hx⟩⟩
 
 /-- the visits of one scan: the map as it was at the visit, and the entry read. -/
 abbrev Visit := AMap Key Entry × Key × Entry
@@ -792,11 +793,11 @@ theorem scanEnd_soundI {t : Timeouts} {now : Nat} {hist : List (AMap Key Entry)}
       split at hm
       · rename_i hnd
         rw [if_neg hnd] at hps
-        obtain ⟨hkd, ct, hc, r, hr, hrl, hre⟩ := hps
+        obtain ⟨hkd, ct, hc, f, r, hf, hft, hfr, hr, hrl, hre⟩ := hps
         rcases AMap.mem_set hm with h | h
         · refine ⟨ct, hc, ?_⟩
           rw [h]; unfold QSoundI; rw [if_neg hkd]
-          exact ⟨r, hr, hrl, Or.inl hre⟩
+          exact ⟨r, hr, hrl, Or.inr ⟨f, hf, hft, hfr, hre⟩⟩
         · exact hq kq h.1
       · rename_i hd
         have hd' : kp.2.other = dummyKey := by simpa using hd
